@@ -1,5 +1,6 @@
+\* as RangeSplit_u64, 6-bit type
 CONSTANTS BODY = "A"  TNEG = 0  TMAX = 63  CNEG = 0  CMAX = 63  BNEG = 0  BHI = 63
-          MAXELEMS = 16  MAXPEERS = 6  REVERSED = FALSE  NEARMAX = TRUE  WRAPPED = TRUE
+          MAXELEMS = 16  MAXPEERS = 6  FIX_REVERSED = TRUE  FIX_CLAMP_START = TRUE  WRAPPED = TRUE
 SPECIFICATION Spec
 INVARIANTS C15_Range
 CHECK_DEADLOCK FALSE
